@@ -1,5 +1,6 @@
 from __future__ import print_function
 
+import re
 import sys
 from bisect import insort
 from ast import iter_fields, Store, Load, NodeVisitor, parse, Tuple, List, AST
@@ -343,6 +344,16 @@ def marked(name):
     return SOURCE_MARK in name
 
 
+def splitlines(source):
+    # type: (str) -> list[str]
+    """Lines as the parser counts them: str.splitlines also breaks at form
+    feeds, vertical tabs and the unicode line separators"""
+    lines = re.split('\r\n|\r|\n', source)
+    if not lines[-1]:
+        lines.pop()
+    return lines
+
+
 class Source(object):
     def __init__(self, source, filename=None, position=None):
         # type: (str, str | None, tuple[int, int] | None) -> None
@@ -350,7 +361,7 @@ class Source(object):
         self.filename = filename or '<string>'
         if position:
             ln, col = position
-            lines = source.splitlines() or ['']
+            lines = splitlines(source) or ['']
             if ln > len(lines):
                 lines.extend([''] * (ln - len(lines)))
             line = lines[ln-1]
@@ -376,7 +387,7 @@ class Source(object):
     @cached_property
     def lines(self):
         # type: () -> list[str]
-        return self.source.splitlines() or ['']
+        return splitlines(self.source) or ['']
 
 
 def dump_flows(scope, fd=None):
